@@ -520,3 +520,22 @@ def delete_resolution(repo, run, rule):
         t = repo.resolve(c, 'delete', ayns=True)
         if t is not getter:
             run.violation(rule, t, 'override of ayns.delete in %s' % c, 'delete resolution overridden')
+
+
+def child_kwargs_keys(repo, run, rule):
+    """what a container hands to a child it adopts (set_child, reconstruction): the implicit_* channel only"""
+    gk = repo.func('ComposedNode._get_child_kwargs')
+    keys = set()
+    for s in ast.walk(gk.node):
+        if isinstance(s, ast.Assign) and isinstance(s.targets[0], ast.Subscript) and norm(s.targets[0].value) == 'ret' and isinstance(s.targets[0].slice, ast.Constant):
+            keys.add(s.targets[0].slice.value)
+        if isinstance(s, ast.Dict) and s.keys:
+            keys |= {k.value for k in s.keys if isinstance(k, ast.Constant)}
+    want = {'implicit_delete', 'implicit_allow_new', 'implicit_safe'}
+    extra = keys - want
+    if extra:
+        run.violation(rule, gk, '_get_child_kwargs keys %s' % sorted(keys), 'adopted / re-attached children are given %s by the container: every set_child during a merge (and reconstruction by copy/pickle) overwrites state that belongs to the child' % sorted(extra))
+    elif keys != want:
+        run.violation(rule, gk, '_get_child_kwargs keys %s' % sorted(keys), 'implicit flags %s are no longer handed to adopted children' % sorted(want - keys))
+    else:
+        run.ok(rule, gk, '_get_child_kwargs hands out exactly implicit_delete / implicit_allow_new / implicit_safe')
